@@ -121,6 +121,27 @@ def run(ctx: Ctx) -> Result:
             viol(what, cache, script, 'false or an error - never true (no injective valid assignment / malformed item / non-permitted flag)', o[:160])
         if not expect and well and not (got_false or got_true):
             viol(what, cache, script, 'false (all items well formed, flags permitted)', o[:160])
+    # "valid in the sense of C02" includes the run's item limit: the message every inner check builds is subject to the configured
+    # limit (not to a default one) - a quorum over a message that fits is accepted, over one that does not fit it is an error
+    lim_lines, lim_outs = [], []
+    for _ in range(ctx.n(40, 300)):
+        lim = rng.choice([65, 100, 1500, 4096])
+        c2 = vmrun.Cfg(); c2.max_item_size = lim
+        total = rng.choice([lim - 1, lim, lim + 1, lim // 2, min(lim + 400, 5000), 1025 if lim > 1025 else lim - 3, 1024 if lim > 1024 else lim])
+        cut = rng.randrange(0, total + 1)
+        cache = {'sigfield2': V.rbytes(rng, cut), 'sigfield5': V.rbytes(rng, total - cut)}
+        msg = ref_msg(cache, 0); fits = len(msg) <= lim
+        ks = rng.sample(range(len(keys.sks)), 3)
+        sg = [keys.sks[k].sign(msg).signature for k in ks[:2]]
+        script = build(sg, [keys.pks[k] for k in ks], 0)
+        o = vmrun.run_impl(c2, cache, script)
+        lim_lines.append(vmrun.case_line('RUN', c2, cache, [script])); lim_outs.append(o)
+        res.note_case(('limits', lim, total, tuple(ks)))
+        f = vmrun.fields(o); st = f['status']; top = f['stack'].split(',')[-1] if f.get('stack', '-') != '-' else None
+        good = (st == 'OK' and top == 'ff') if fits else st.startswith('ERR')
+        if not good and len(res.violations) < 10:
+            res.violations.append({'input': {'what': f'2-of-3 by two listed signers, message of {len(msg)} bytes, stack_max_item_size = {lim}', 'cfg': c2.line(), 'cache': vmrun.cache_str(cache, False)[:3000], 'script': script.hex()},
+                                   'expected': 'true (the message fits the configured item limit)' if fits else 'an error (the message every check must build exceeds the configured item limit)', 'observed': o[:160], 'how_to_run': './check C03 --replay <this file>'})
     # make_multisig_lock: quorum <= number of unique keys, whatever the key objects' types
     for _ in range(ctx.n(150, 1500)):
         k = rng.randrange(1, 4)
@@ -149,6 +170,10 @@ def run(ctx: Ctx) -> Result:
                 ok, soft, why = vmrun.compare_run(r, o)
                 if not ok and len(res.disagreements) < 30:
                     res.disagreements.append({'what': c[0], 'script': c[2].hex()[:200], 'why': why, 'model': r[:160], 'impl': o[:160]})
+            for l_, r, o in zip(lim_lines, ctx.driver.run(lim_lines), lim_outs):
+                ok, soft, why = vmrun.compare_run(r, o)
+                if not ok and len(res.disagreements) < 30:
+                    res.disagreements.append({'what': 'limits', 'line': l_[:200], 'why': why, 'model': r[:160], 'impl': o[:160]})
             # the pure specification (Props/C03 is about it) vs the implementation, directly
             def lst(xs): return ','.join((x.hex() or 'e') for x in xs) or '-'
             plines = [f'MSPURE {cfg.max_item_size} {vmrun.cache_str({"timestamp": vmrun.NOW, **c}, False)} {al} {lst(list(reversed(a)))} {lst(list(reversed(b)))}' for c, al, a, b, i in pure]
